@@ -63,6 +63,8 @@ var Seeds = []string{
 	"func f:num\n    while true\n        return 1\n    end\n    return 2\nend\nprint (f)\n",
 	"x := [1 2 3][1]\ny := \"abc\"[1:]\nz := {a:1}.a\nprint x y z\n",
 	"del {} \"a\"\nprint (has {a:1} \"a\") (join [1 2] \",\") (split \"a b\" \" \")\n",
+	"func sign:string n:num\n    if n > 0\n        return \"p\"\n    else if n < 0\n        return \"n\"\n    else\n        return \"z\"\n    end\nend\nprint (sign 1) (sign -1) (sign 0)\n",
+	"func pick:num a:bool b:bool\n    if a\n        if b\n            return 1\n        else\n            return 2\n        end\n    else\n        return 3\n    end\nend\nprint (pick true false)\n",
 }
 
 var blockRe = regexp.MustCompile("(?s)```evy\n(.*?)```")
@@ -85,7 +87,7 @@ func DocBlocks(repo string) []string {
 // Example is a documented program with its documented output.
 type Example struct {
 	File, Src, Input, Output, Err string
-	Line                            int
+	Line                          int
 }
 
 // DocExamples returns evy blocks followed by evy:output / evy:err (optionally evy:input) blocks.
